@@ -908,3 +908,22 @@ def r10(rr, repo):
             rr.ob('the exit kind is not read from the ambient exception state in a finally', True, mod, n, witness=f'{U(n)[:80]} (inside an except clause: the exception being handled is the one that passed)', key='exit-kind-from-what-passed')
         else:
             rr.unresolved('how Filter.run decides between a clean and an error exit was not recognised', mod, n, witness=U(n)[:100], key='exit-kind-from-what-passed')
+
+
+@rule('C08.R11', "the message-queue layer does what its callers rely on, in the right sense: MQ.destroy tears down every endpoint that exists, MQ.send_exit_msg announces on every endpoint that exists (sources upstream, "
+                 "outputs downstream), MQ.poll services the sender when there is one - each guarded by 'this endpoint exists', not by its negation")
+def r11(rr, repo):
+    from .zmq import MQF
+    mod = repo.module(MQF)
+    table = (('MQ.destroy', 'destroy', ('self.receiver', 'self.sender')), ('MQ.send_exit_msg', 'send_oob', ('self.receiver', 'self.sender')), ('MQ.poll', 'poll', ('self.sender',)))
+    for fname, meth, ends in table:
+        _, fn = repo.find(f'{MQF}::{fname}')
+        for end in ends:
+            calls = [c for c in q.calls_in(fn, into_functions=False) if U(c.func) == f'{end}.{meth}']
+            if len(calls) != 1:
+                rr.ob(f'{fname} calls {end}.{meth}() exactly once', False, mod, fn, witness=f'{len(calls)} calls', key=f'mq-endpoint|{fname}|{end}')
+                continue
+            g = q.effective_guards(calls[0], fn)
+            exists = [(t, p) for t, p in g if end in t]
+            ok = bool(exists) and all((p and t.replace(' ', '') in (end, f'{end}isnotNone')) or ((not p) and t.replace(' ', '') == f'{end}isNone') for t, p in exists) and len(exists) == len(g)
+            rr.ob(f'{fname}: {end}.{meth}() runs exactly when that endpoint exists', ok, mod, calls[0], witness=str(g)[:120], key=f'mq-endpoint|{fname}|{end}')
